@@ -120,7 +120,6 @@ func plan(r *vk.Run) []*cfg {
 		add(pmemFF, keysFull, two, 1, 3, 100, 0)
 		add(pmemAlone, keysMid, two, 1, 3, 100, 0)
 		add(mem, keysMid, two, 1, 4, 400, 0)
-		add(pmem, keysMid, two, 1, 4, 400, 0)
 		add(fsdb, keysMid, two, 3, 3, 100, 0)
 		add(bolt, keysMid, two, 3, 3, 100, 0)
 		add(ldb, keysSmall, two, 1, 3, 50, 0)
